@@ -261,6 +261,9 @@ def baryGrid (n1 n2 : Nat) : List (Rat × Rat) :=
 /-- the triangle keeps the grid points with `x + y ≤ 1` -/
 def triGrid (n1 n2 : Nat) : List (Rat × Rat) := (baryGrid n1 n2).filter fun p => decide (p.1 + p.2 ≤ 1)
 
+/-- `Triangle.sample_grid(d=…)` after the repair: the surplus over `n = ceil(d·area)` is cut off -/
+def triDensityGrid (n n1 n2 : Nat) : List (Rat × Rat) := (triGrid n1 n2).take n
+
 /-- … and those strictly inside (the diagonal ones are at the mercy of float rounding in the code) -/
 def triGridStrict (n1 n2 : Nat) : List (Rat × Rat) := (baryGrid n1 n2).filter fun p => decide (p.1 + p.2 < 1)
 
